@@ -202,6 +202,9 @@ func Key(password, salt []byte, N, r, p, keyLen int) ([]byte, error) {
 	if uint64(r)*uint64(p) >= 1<<30 || r > maxInt/128/p || r > maxInt/256 || N > maxInt/128/r {
 		return nil, errors.New("scrypt: parameters are too large")
 	}
+	if keyLen <= 0 || uint64(keyLen) > (1<<32-1)*sha256.Size {
+		return nil, errors.New("scrypt: keyLen must be > 0 and at most (2³²-1) * 32")
+	}
 
 	xy := make([]uint32, 64*r)
 	v := make([]uint32, 32*N*r)
